@@ -22,6 +22,13 @@ func init() {
 }
 
 func runC38(c *eng.Ctx) {
+
+	// the index the serialised writers update and the readers consult: requests that reach a volume out of key order
+	// are placed by swapping entries; the 5th offset byte (kept in a parallel slice) must travel with its entry, or a
+	// later read of a key that was passed over is served another record
+	if n := lockstepExtra(c, "LOCKSTEP-index"); n < 30 {
+		c.Undecided("LOCKSTEP-index", "discovery", token.NoPos, fmt.Sprintf("only %d entry accesses of the compact map found (expected >= 30)", n))
+	}
 	// ---------------------------------------------------------------- (0) PAIR-datafile
 	c.CheckLockPairs("PAIR-datafile", "weed/storage", "Volume.dataFileAccessLock", nil)
 	c.Expect("PAIR-datafile", 21)
